@@ -230,9 +230,15 @@ fn corpus() -> Vec<Vec<u8>> {
         b"rule a {condition: with x = 1, y = 2 : ( x == y ) }",
         b"rule a {condition: 50% of them }",
         b"rule a {condition: not not not true and ( ( ( false ) ) ) }",
-        // known finding: a truncated multi-byte Unicode space loses a byte
+        // repaired by 03453382: a truncated multi-byte Unicode space lost a byte (e28061 family)
         b"rule a {condition: \xe2\x80true}",
         b"\xe2\x81",
+        b"\xe2\x80a",
+        b"\xe2\x80",
+        b"\xe2\x81 ",
+        b"a\xe2\x80b ",
+        b"\xe2\x80\xe2\x80\x80\xe2\x81\xe2",
+        b"rule a {strings: $a = { 01 \xe2\x80 02 } condition: $a}",
     ];
     v.into_iter().map(|s| s.to_vec()).collect()
 }
